@@ -3,7 +3,9 @@
   challenges and hands the per-label triples to `KZG10::batch_check`.
 -/
 import PCV.Proofs.MarlinMore
+import PCV.Proofs.KZG10Batch
 import PCV.Props.Examples
+import PCV.Props.C01_MarlinBatch
 set_option linter.unusedSectionVars false
 
 namespace PCV.C05
@@ -66,5 +68,39 @@ theorem marlin_batch_single_false (vk : VK F) (comms : List (LComm F)) (qs : Lis
   congr 1
   rw [decide_eq_false_iff_not]
   exact KZG.wsum_single 1 rs _ j hj hz hne hr
+
+/-- **Planted cancellations need the verifier's cooperation (Marlin).** If the combined claim of point
+label `j+1` is false then, whatever the other randomizers are, at most one value of the randomizer
+`ρ_{j+1}` makes `batch_check` accept — however the errors were distributed over polynomials and
+points. -/
+theorem marlin_batch_exceptional_randomizer (vk : VK F) (comms : List (LComm F)) (qs : List (Query F))
+    (evals : List ((Label × F) × F)) (πs : List (KZG.Proof F)) (ξs rs : List F)
+    (trip : List (F × F × F)) (rest : List F)
+    (hc : combineGroups vk comms evals (groupQueries qs) ξs = .ok (trip, rest))
+    (hlen : πs.length = trip.length) (j : Nat) (hj : j < rs.length)
+    (hd : (KZG.defects vk.vk (trip.map (·.1)) (trip.map (·.2.1)) (trip.map (·.2.2)) πs).getD (j + 1) 0 ≠ 0)
+    (x y : F)
+    (hx : batchCheck vk comms qs evals πs ξs (rs.set j x) = .ok true)
+    (hy : batchCheck vk comms qs evals πs ξs (rs.set j y) = .ok true) : x = y := by
+  rw [marlin_batch_defect vk comms qs evals πs ξs _ trip rest hc hlen] at hx hy
+  injection hx with hx; injection hy with hy
+  rw [decide_eq_true_iff] at hx hy
+  exact KZG.wsum_zero_unique 1 rs _ j hj hd x y hx hy
+
+/-! non-vacuity on the batch of `C01.exBatch` (two point labels): the honest batch is accepted for
+every randomizer, a false claim at the second point label is rejected for every non-zero randomizer,
+and `combineGroups` succeeds with one triple per point label -/
+example : ∀ ρ : K, batchCheck C01.exVK (C01.exBatch.map (·.2.2)) C01.exQueries
+    [(([97], 5), evalPoly [1, 2, 3] 5), (([98], 5), evalPoly [4, 0, 1] 5), (([98], 9), evalPoly [4, 0, 1] 9)]
+    [⟨22, none⟩, ⟨56, none⟩] [11, 13, 17, 19] [ρ] = .ok true := by decide
+example : ∀ ρ : K, ρ ≠ 0 → batchCheck C01.exVK (C01.exBatch.map (·.2.2)) C01.exQueries
+    [(([97], 5), evalPoly [1, 2, 3] 5), (([98], 5), evalPoly [4, 0, 1] 5), (([98], 9), evalPoly [4, 0, 1] 9 + 1)]
+    [⟨22, none⟩, ⟨56, none⟩] [11, 13, 17, 19] [ρ] = .ok false := by decide
+example : (combineGroups C01.exVK (C01.exBatch.map (·.2.2))
+    [(([97], 5), evalPoly [1, 2, 3] 5), (([98], 5), evalPoly [4, 0, 1] 5), (([98], 9), evalPoly [4, 0, 1] 9)]
+    (groupQueries C01.exQueries) [11, 13, 17, 19]).map (fun x => (x.1.length, x.2)) = .ok (2, [19]) := by decide
+example : batchCheck C01.exVK (C01.exBatch.map (·.2.2)) C01.exQueries
+    [(([97], 5), evalPoly [1, 2, 3] 5), (([98], 5), evalPoly [4, 0, 1] 5), (([98], 9), evalPoly [4, 0, 1] 9)]
+    [⟨22, none⟩] [11, 13, 17, 19] [7] = .error .abort := by decide
 
 end PCV.C05
